@@ -318,6 +318,7 @@ struct WriteSpec {
     Bytes dict;
     std::vector<Bytes> chunks;      // uncompressed data chunks (dictionary excluded)
     std::vector<OptElem> opt;
+    bool store_empty = false;       // zstd only: an empty data chunk is stored as the (9-13 byte) zstd frame of no data instead of as nothing
 };
 struct Written { Bytes file; Header h; std::vector<Bytes> stored; };   // stored[0] = dict
 
@@ -339,7 +340,8 @@ static inline Written write(const WriteSpec &w, const EmitOpts &o = EmitOpts()) 
     int cds = digest_size(w.chunk_hash_type);
     auto add = [&](const Bytes &plain, bool is_dict) {
         Entry e; Bytes st;
-        if (plain.empty()) { st.clear(); e.digest.assign(cds, 0); e.udigest.assign(cds, 0); }
+        if (plain.empty() && w.store_empty && !is_dict && w.comp != COMP_NONE) { st = zstd_comp(plain, &w.dict, w.level); e.digest = digest(w.chunk_hash_type, st); e.udigest = digest(w.chunk_hash_type, plain); }
+        else if (plain.empty()) { st.clear(); e.digest.assign(cds, 0); e.udigest.assign(cds, 0); }
         else {
             st = w.comp == COMP_NONE ? plain : zstd_comp(plain, is_dict ? nullptr : &w.dict, w.level);
             e.digest = digest(w.chunk_hash_type, st); e.udigest = digest(w.chunk_hash_type, plain);
